@@ -13,7 +13,8 @@ From GZgen Require Export C10Consts.
 Import ListNotations.
 Local Open Scope nat_scope.
 
-Inductive event := EvGen | EvMap (x : Z) | EvRed | EvCtx.
+Inductive event := EvGen | EvMap (x : Z) | EvRed | EvCtx
+  | EvCaller.   (* release the caller, held before its final select by a context whose Done() parks it *)
 
 Inductive api := AMapReduce | AVoid | AChan | AForEach | AFinish | AFinishVoid.
 
@@ -25,6 +26,7 @@ Record case := mkCase
     cred : list uact;
     cevents : list event;
     cprectx : bool;               (* the context has already ended when the call starts *)
+    cheld : bool;                 (* the caller is held at the entry of its final select until EvCaller *)
     (* observed on the implementation *)
     ofired : list (bool * bool);  (* first entry: start of the call; then per event: a function was
                                      released; the call has returned at the following quiescence *)
@@ -85,10 +87,10 @@ Fixpoint internal_maps (auto : bool) (i : nat) (ms : list mapper) : list label :
   end.
 
 (* the next internal step, and whether the implementation had a real choice there *)
-Definition next_internal (c : config) (auto : bool) (s : state) : option (state * bool) :=
+Definition next_internal (c : config) (auto held : bool) (s : state) : option (state * bool) :=
   let mb := filter (fun b => enabled c s (LMain b))
                    (match mainpc s with
-                    | MSelect => [BPanic; BCtx; BOut]
+                    | MSelect => if held then [] else [BPanic; BCtx; BOut]
                     | MDefer _ => [BPanic; BOut]
                     | _ => [BOut]
                     end) in
@@ -137,18 +139,19 @@ Definition next_internal (c : config) (auto : bool) (s : state) : option (state 
   end.
 
 (* (state, racy, out of fuel) *)
-Fixpoint settle (fuel : nat) (c : config) (auto : bool) (s : state) (racy : bool)
+Fixpoint settle (fuel : nat) (c : config) (auto held : bool) (s : state) (racy : bool)
   : state * bool * bool :=
   match fuel with
   | O => (s, racy, true)
-  | S f => match next_internal c auto s with
-           | Some (s1, r) => settle f c auto s1 (racy || r)
+  | S f => match next_internal c auto held s with
+           | Some (s1, r) => settle f c auto held s1 (racy || r)
            | None => (s, racy, false)
            end
   end.
 
 Definition release (c : config) (s : state) (e : event) : option state :=
   match e with
+  | EvCaller => None          (* handled by [drive] *)
   | EvCtx => step c s LCtx
   | EvGen => if at_gate (genpc s) then step c s LGen else None
   | EvRed => if at_gate (redpc s) then step c s LRed else None
@@ -163,17 +166,20 @@ Definition returned (s : state) : bool :=
 
 Definition FUEL : nat := 3000.
 
-Fixpoint drive (c : config) (auto : bool) (s : state) (evs : list event) (racy bad : bool)
+Definition is_caller (e : event) : bool := match e with EvCaller => true | _ => false end.
+
+Fixpoint drive (c : config) (auto held : bool) (s : state) (evs : list event) (racy bad : bool)
   : state * list (bool * bool) * bool * bool :=
   match evs with
   | [] => (s, [], racy, bad)
   | e :: tl =>
-    match release c s e with
-    | None => let '(s2, fl, r2, b2) := drive c auto s tl racy bad in
+    match (if is_caller e then (if held then Some s else None) else release c s e) with
+    | None => let '(s2, fl, r2, b2) := drive c auto held s tl racy bad in
               (s2, (false, returned s) :: fl, r2, b2)
     | Some s1 =>
-      let '(s1', r1, b1) := settle FUEL c auto s1 false in
-      let '(s2, fl, r2, b2) := drive c auto s1' tl (racy || r1) (bad || b1) in
+      let held1 := held && negb (is_caller e) in
+      let '(s1', r1, b1) := settle FUEL c auto held1 s1 false in
+      let '(s2, fl, r2, b2) := drive c auto held1 s1' tl (racy || r1) (bad || b1) in
       (s2, (true, returned s1') :: fl, r2, b2)
     end
   end.
@@ -202,8 +208,8 @@ Definition model_run (c : case) : mobs :=
   let cf := cfg_of c in
   let auto := is_auto (capi c) in
   let i0 := if cprectx c then match step cf (init cf) LCtx with Some s => s | None => init cf end else init cf in
-  let '(s0, r0, b0) := settle FUEL cf auto i0 false in
-  let '(s, fl, racy, bad) := drive cf auto s0 (cevents c) r0 b0 in
+  let '(s0, r0, b0) := settle FUEL cf auto (cheld c) i0 false in
+  let '(s, fl, racy, bad) := drive cf auto (cheld c) s0 (cevents c) r0 b0 in
   mkObs ((true, returned s0) :: fl)
         (match result s with Some o => Some (post_result (capi c) o) | None => None end)
         (sort_z (map mitem (maps s))) (sort_z (g_reduced s)) (g_peak s) (clean s) racy bad.
@@ -305,17 +311,19 @@ Fixpoint fault_before_commit (prev_ret : bool) (l : list ((bool * bool) * nat)) 
    must have returned at that very quiescence: only library steps are needed, the call does not
    wait for mapper / reducer functions that are still parked.  [evs] are the events of the entries
    (None for the start of the call). *)
-Fixpoint prompt_ok (auto : bool) (l : list (option event * ((bool * bool) * nat)))
+Fixpoint prompt_ok (auto held : bool) (l : list (option event * ((bool * bool) * nat)))
          (gen_ended pending committed : bool) : bool :=
   match l with
   | [] => true
   | (e, ((f, r), k)) :: tl =>
+    let held := held && negb (f && match e with Some EvCaller => true | _ => false end) in
     let isgen := match e with Some EvGen => true | _ => false end in
     let isctx := match e with Some EvCtx | None => true | _ => false end in
     let ge := gen_ended || (f && ((k =? 5) || (isgen && (k =? 2)))) in
     let pd := pending || (f && ((k =? 4) || ((k =? 2) && isctx && negb committed))) in
     let cm := committed || (f && ((k =? 3) || ((k =? 2) && negb isctx))) in
-    (if pd && (auto || ge) then r else true) && prompt_ok auto tl ge pd cm
+    (* (a caller that is still held before its select cannot return) *)
+    (if pd && (auto || ge) && negb held then r else true) && prompt_ok auto held tl ge pd cm
   end.
 
 Definition last_is_recvall (l : list uact) : bool :=
@@ -374,7 +382,7 @@ Definition prop_ok (c : case) : bool :=
            else true)
      end
   (* the call does not wait for straggling mapper / reducer functions after a cancel / context end *)
-  && (fe || prompt_ok (is_auto a) (combine (None :: map Some (cevents c)) (combine (ofired c) (oacts c))) false false false)
+  && (fe || prompt_ok (is_auto a) (cheld c) (combine (None :: map Some (cevents c)) (combine (ofired c) (oacts c))) false false false)
   (* at most [workers] mapper functions at once *)
   && (opeak c <=? w)
   (* no item is mapped twice, and only generated items are mapped *)
